@@ -3,6 +3,7 @@ import os, sys, re
 from fractions import Fraction
 from ..core import Ob, pmap
 from .. import astload, cemit
+from ..cemit import MANT, round_to, hexfloat
 from ..lower import Unsupported, tstr
 from ..symex import mk, num, neg, cmp, land, lor, lnot, TRUE, FALSE, is_num, ite
 from ..realob import SymCall, RealTask, leaves, conj
@@ -70,6 +71,7 @@ def leaf_tasks(check, units, T, quick_noisy=True):
                     continue
                 t = AltTask(check, base + '.real.' + tag, alts, leaf.qualname, loc, sym)
                 tasks.append(t)
+                tasks.append(RangeTask(check, base + '.range.' + tag, alts[0][0], leaf, ut, uname, direction, T, loc))
                 # NOISY: standard model of rounding, bound (k+1) u (|A x| + |B|)
                 if quick_noisy:
                     tasks.append(NoisyTask(check, base + '.ulp.' + tag, low, leaf, ut, sym, nalt, direction, T, loc))
@@ -97,6 +99,92 @@ class AltTask:
             last = r
         ob.status, ob.backend, ob.detail, ob.cex = last.status, last.backend, last.detail, last.cex
         return ob
+
+
+def rat_eval(t, env):
+    """Exact value of an arithmetic term under an assignment of its symbols."""
+    op = t[0]
+    if op == 'num':
+        return t[1]
+    if op == 'sym':
+        return env[t[1]]
+    if op == 'neg':
+        return -rat_eval(t[1], env)
+    if op in ('+', '-', '*', '/'):
+        a, b = rat_eval(t[1], env), rat_eval(t[2], env)
+        return a + b if op == '+' else a - b if op == '-' else a * b if op == '*' else a / b
+    raise Unsupported('term %s in a range analysis' % (op,))
+
+
+class RangeTask:
+    """No intermediate result overflows where the exact answer is representable: every intermediate of a leaf body is an
+    affine function a_i x + b_i of the input (constants are exact rationals, pi to 50 digits); on the set of finite inputs
+    whose exact result is finite, |a_i x + b_i| stays below the overflow threshold of the type (largest finite value plus
+    half a unit in the last place).  Decided exactly at the end points of that interval."""
+
+    def __init__(self, check, name, sc, leaf, ut, uname, direction, T, loc):
+        self.ob = Ob(name, 'ground', leaf.qualname, loc)
+        self.a = (check, sc, leaf, ut, uname, direction, T)
+
+    def run(self):
+        check, sc, leaf, ut, uname, direction, T = self.a
+        ob = self.ob
+        ob.backend = 'phqv symex (REAL) + exact interval end points'
+        try:
+            p, emin, emax = MANT[T]
+            M = (2 - Fraction(2) ** (1 - p)) * Fraction(2) ** emax
+            thr = (2 - Fraction(2) ** (-p)) * Fraction(2) ** emax
+            pi = Fraction('3.14159265358979323846264338327950288419716939937510')
+            y = leaves(sc.post[leaf.params[0][0]])[0]
+
+            def coeff(t):
+                v0, v1, v2 = (rat_eval(t, {'x': Fraction(k), 'PI': pi}) for k in (0, 1, 2))
+                if v2 - v1 != v1 - v0:
+                    return None
+                return v1 - v0, v0
+            fin = coeff(y)
+            inter = [coeff(t) for t in sc.S.intermediates]
+            if fin is None or any(c is None for c in inter):
+                ob.status, ob.detail = 'discharged', 'not affine in the input: no range obligation generated'
+                return ob
+            A, B = fin
+            lo, hi = -M, M
+            if A > 0:
+                lo, hi = max(lo, (-M - B) / A), min(hi, (M - B) / A)
+            elif A < 0:
+                lo, hi = max(lo, (M - B) / A), min(hi, (-M - B) / A)
+            ob.text = 'for every finite %s x with |%s(x)| <= max: none of the %d intermediate results of the body overflows (each is a_i x + b_i; checked at the end points of the admissible interval)' % (T, leaf.qualname, len(inter))
+            worst = None
+            for k, (a, b) in enumerate(inter):
+                for xe in (lo, hi):
+                    v = abs(a * xe + b)
+                    if v >= thr and (worst is None or v > worst[0]):
+                        worst = (v, k, xe, a, b)
+            if worst is None:
+                ob.status = 'discharged'
+                return ob
+            v, k, xe, a, b = worst
+            # a representable witness strictly inside the interval
+            xw = round_to(xe * (1 - Fraction(1, 1024)), T)
+            if abs(a * xw + b) < thr:
+                xw = round_to(xe, T)
+            ob.status = 'failed'
+            ob.cex = {'x': xw}
+            ob.detail = 'intermediate %d of the body is %s*x + %s: at x = %.6g it is %.6g, beyond the largest %s (%.6g), although the exact result %.6g is representable' % (
+                k, float(a) if abs(a) < 1e300 else a, float(b) if abs(b) < 1e300 else b, float(xw) if abs(xw) < Fraction(10) ** 300 else 0.0, 0.0, T, 0.0, 0.0)
+            ob.detail = 'intermediate %d of the body is (%s)*x + (%s); for x = %s it exceeds the largest finite %s although the exact result (%s)*x + (%s) is representable' % (
+                k, short_frac(a), short_frac(b), hexfloat(xw, T), T, short_frac(A), short_frac(B))
+        except Exception as e:
+            ob.status, ob.detail = 'error', '%s: %s' % (type(e).__name__, e)
+        return ob
+
+
+def short_frac(fr):
+    try:
+        f = float(fr)
+        return '%.12g' % f
+    except OverflowError:
+        return '%d/%d' % (fr.numerator, fr.denominator)
 
 
 PI_LO = Fraction('3.1415926535897932384626433832795028841971693993751')
@@ -252,6 +340,33 @@ def run(check):
             adjudicate(check, units, t, ob)
 
 
+def adjudicate_range(check, units, ob, utn, uname, direction, T):
+    """Native: convert the witness; the exact result is finite, so an infinite library result confirms the overflow."""
+    import re
+    from .. import replay
+    from ..ieeeob import write_replay
+    ut = 'Unit::' + utn
+    std = units.standard(ut)[1]
+    frm, to = (uname, std) if direction == 'To' else (std, uname)
+    x = ob.cex['x']
+    cpp = ('#include <PhQ/Unit/%s.hpp>\n#include <cstdio>\n#include <cmath>\nint main() {\n  const %s x = %s;\n'
+           '  const %s y = PhQ::Convert<PhQ::Unit::%s, %s>(x, PhQ::Unit::%s::%s, PhQ::Unit::%s::%s);\n'
+           '  const %s z = PhQ::Convert<PhQ::Unit::%s, %s>(-x, PhQ::Unit::%s::%s, PhQ::Unit::%s::%s);\n'
+           '  std::printf("x = %%La\\nConvert(x) = %%Lg\\nConvert(-x) = %%Lg\\n", (long double)x, (long double)y, (long double)z);\n'
+           '  if (!std::isfinite(y) || !std::isfinite(z)) { std::printf("MISMATCH the library returns a non-finite value for a finite input whose exact conversion is representable\\n"); return 1; }\n'
+           '  return 0;\n}\n') % (utn, T, hexfloat(x, T), T, utn, T, utn, frm, utn, to, T, utn, T, utn, frm, utn, to)
+    rec = {'property': 'C01', 'obligation': ob.name, 'function': ob.function, 'source': ob.loc, 'verifier_output': ob.detail, 'cpp': cpp,
+           'inputs': {'x': hexfloat(x, T)}, 'confirmed': False}
+    r, err = replay.build_and_run(cpp, os.path.join(check.work, 'replay'), 'r_' + re.sub(r'\W+', '_', ob.name))
+    if err:
+        rec['replay_error'] = err[:600]
+    else:
+        rec['native_output'] = r.stdout
+        if 'MISMATCH' in r.stdout:
+            rec['confirmed'], rec['mismatch'] = True, r.stdout.strip().split('\n')
+    check.violations.append((ob, write_replay(check, ob, rec), '' if rec['confirmed'] else 'no-failing-input-found'))
+
+
 def adjudicate(check, units, t, ob):
     """Replay a failed leaf obligation on the real code: convert a few values natively through the public
     API and compare with the oracle's exact affine map."""
@@ -268,6 +383,8 @@ def adjudicate(check, units, t, ob):
     A, pik, B, dims = UA.conversion(ut, sym, 0)
     alts = [UA.conversion(ut, sym, a) for a in range(UA.n_alternatives(sym))]
     xs = ['1', '3', '-7', '1000', '0.001', '123456.789']
+    if '.range.' in ob.name and isinstance(ob.cex, dict) and 'x' in ob.cex:
+        return adjudicate_range(check, units, ob, utn, uname, direction, T)
     suf = {'float': 'f', 'double': '', 'long double': 'L'}[T]
     fmt = '%La' if T == 'long double' else '%a'
     cast = '' if T == 'long double' else '(double)'
